@@ -129,6 +129,9 @@ INPUT_OPS = ("cn_peer", "cn_eof", "cn_rderr", "cn_wrerr", "cn_budget", "cn_iws",
              "cn_dropconn", "cn_takeping")
 
 
+AFTER_END_OPS = ("cn_resp", "cn_read", "cn_rtrailers", "cn_pollcap", "cn_pollreset", "cn_ready", "cn_pollpong", "cn_info")
+
+
 def mon_conn(ops, impl):
     """monitor script for the wire-level reference monitors (H2V/Spec/Wire.lean) from a trace of the real connection"""
     out = []
@@ -139,6 +142,7 @@ def mon_conn(ops, impl):
     last_st, last_op_was_input = "", True
     held = {}
     woken_since_poll, input_since_poll, parked = False, True, False
+    gone, gone_st, last_st_before = False, "", ""
     for i, (o, a) in enumerate(zip(ops, impl)):
         w = o.split(" ")
         if w[0] == "cn_new":
@@ -151,6 +155,7 @@ def mon_conn(ops, impl):
             slots = []
             held = {}
             woken_since_poll, input_since_poll, parked = False, True, False
+            gone = False
             budget_open = True
             alive = True
             role = w[1]
@@ -158,6 +163,15 @@ def mon_conn(ops, impl):
             for kv in w[2:]:
                 if kv.startswith("reset_max="):
                     reset_max = kv[10:]
+        if w[0].startswith("cn_") and gone and w[0] in AFTER_END_OPS:
+            # C07: the connection object has been dropped; nothing may stay pending
+            # (with the state the stream was in when the connection object was dropped)
+            sstate = "-"
+            if len(w) > 1 and w[1].isdigit() and int(w[1]) < len(slots):
+                for seg in gone_st.split("|"):
+                    if seg.startswith(f"S{slots[int(w[1])]}:"):
+                        sstate = seg.split(":", 1)[1].split(",")[0]
+            out.append((i, f"mon_cn afterend {w[0]} {_f(a, 'r=').split(':')[0]} {sstate}"))
         if not w[0].startswith("cn_") or not alive:
             continue
         if a.strip() == "panic":
@@ -184,6 +198,8 @@ def mon_conn(ops, impl):
             input_since_poll = False
         last_op_was_input = w[0] != "cn_poll"
         last_st = st
+        if st not in ("-", "gone", ""):
+            last_st_before = st
         if st not in ("-", "gone", ""):
             out.append((i, f"mon_st {role} {reset_max} {st}"))
         if w[0] == "cn_peer":
@@ -239,6 +255,8 @@ def mon_conn(ops, impl):
             out.append((i, "mon_cn quiescent"))
         if w[0] == "cn_dropconn":
             alive = False
+            gone = True
+            gone_st = last_st_before
     return out
 
 
